@@ -424,6 +424,37 @@ fn read_request<S: Read>(conn: u64, rd: &mut BufReader<S>) -> io::Result<Option<
     Ok(Some(Req { conn, method, target, version, headers, body, chunked, body_complete: complete }))
 }
 
+/// a certificate resolver whose certificate can be exchanged while the server keeps running (same port, same sessions cache)
+#[derive(Debug)]
+pub struct SwitchableCert(pub Mutex<Arc<rustls::sign::CertifiedKey>>);
+
+impl rustls::server::ResolvesServerCert for SwitchableCert {
+    fn resolve(&self, _hello: rustls::server::ClientHello<'_>) -> Option<Arc<rustls::sign::CertifiedKey>> {
+        Some(self.0.lock().unwrap().clone())
+    }
+}
+
+pub fn certified_key(cert_chain_pem: &str, key_pem: &str) -> Result<Arc<rustls::sign::CertifiedKey>, String> {
+    use rustls::pki_types::pem::PemObject;
+    use rustls::pki_types::{CertificateDer, PrivateKeyDer};
+    let certs: Vec<CertificateDer<'static>> = CertificateDer::pem_file_iter(cert_chain_pem).map_err(|e| format!("{cert_chain_pem}: {e}"))?.filter_map(|c| c.ok()).collect();
+    let key = PrivateKeyDer::from_pem_file(key_pem).map_err(|e| format!("{key_pem}: {e}"))?;
+    let provider = rustls::crypto::ring::default_provider();
+    let signing = provider.key_provider.load_private_key(key).map_err(|e| format!("{e}"))?;
+    Ok(Arc::new(rustls::sign::CertifiedKey::new(certs, signing)))
+}
+
+/// TLS configuration (session resumption enabled: stateful cache + tickets as rustls does by default) serving whatever `switch` holds
+pub fn tls_config_switchable(switch: Arc<SwitchableCert>) -> Result<Arc<rustls::ServerConfig>, String> {
+    let provider = Arc::new(rustls::crypto::ring::default_provider());
+    let cfg = rustls::ServerConfig::builder_with_provider(provider)
+        .with_protocol_versions(&[&rustls::version::TLS12, &rustls::version::TLS13])
+        .map_err(|e| format!("{e}"))?
+        .with_no_client_auth()
+        .with_cert_resolver(switch);
+    Ok(Arc::new(cfg))
+}
+
 pub fn tls_config(cert_chain_pem: &str, key_pem: &str, versions: &[&'static rustls::SupportedProtocolVersion]) -> Result<Arc<rustls::ServerConfig>, String> {
     use rustls::pki_types::pem::PemObject;
     use rustls::pki_types::{CertificateDer, PrivateKeyDer};
